@@ -157,6 +157,23 @@ def job_polynomial(job):
                           'got': have, 'expected': want})
             except Exception as e:
                 fail({'what': 'tosympy() raised', 'coefficient': c, 'error': repr(e)[:100]})
+    # zero tests are exact for coefficients of every magnitude: a tiny float is not zero (a tolerance would let code generation
+    # discard small but non-zero coefficients, e.g. the 1/k! of a series or a unit conversion factor)
+    for c in (2.0 ** -40, -2.0 ** -50, 2.0 ** -60, 1e-15, -1e-20, 3e-33, 2.0 ** -200, 5e-324):
+        cases = [('Polynomial([[c]])', lambda: Polynomial([[c]])), ("Polynomial([[c, 'a']])", lambda: Polynomial([[c, 'a']])),
+                 ("RationalPolynomial([[c, 'a'], [c, 'b']])", lambda: RationalPolynomial([[c, 'a'], [c, 'b']])),
+                 ("c * a (RationalPolynomial)", lambda: RationalPolynomial.fromname('a') * c),
+                 ("a + c - a", lambda: RationalPolynomial.fromname('a') + c - RationalPolynomial.fromname('a')),
+                 ("(c*a) * b", lambda: (RationalPolynomial.fromname('a') * c) * RationalPolynomial.fromname('b'))]
+        for label, mk in cases:
+            out['evaluations'] += 1
+            try:
+                z = mk()
+                if not bool(z) or (z == 0) or not (z != 0):
+                    fail({'what': 'zero test is not exact: a polynomial with a small non-zero coefficient tests as zero', 'expr': label, 'coefficient': c,
+                          'bool': bool(z), 'eq0': bool(z == 0)})
+            except Exception as e:
+                fail({'what': 'zero test raised', 'expr': label, 'coefficient': c, 'error': repr(e)[:100]})
     # compare(): a total order on monomials consistent with equality of variable lists
     monos = [[rng.choice([1, -2, 3, 0.5])] + sorted(rng.choices(names, k=rng.randint(0, 3))) for _ in range(40)]
     for a in monos:
@@ -342,4 +359,70 @@ def job_gcase(job):
             break
         if len(out['samples']) < 2:
             out['samples'].append(rec)
+    return out
+
+
+# ------------------------------------------------------------------ C04: short-lived operands, small pool of patterns
+def job_fresh_rounds(job):
+    """Every round rebuilds its operands (grade parts of one dense element, and literal sub-patterns) and lets them die again, alternating
+    between patterns with the same number of blades; every result is compared with the blade-by-blade rule.  A result may depend on the
+    operand's stored blades and coefficients only -- not on which operands existed before, nor on where they lived."""
+    import gc
+    from standins import oracle as O
+    from standins.native import make_algebra, mv_from, frac_vals, showmv
+    rng = random.Random(job.get('seed', 0))
+    out = {'evaluations': 0, 'failures': [], 'samples': [], 'configs': 0}
+    rules = {'neg': lambda A: O.scale(A, -1), 'reverse': O.rev, 'involute': O.invo, 'conjugate': O.conj}
+    pats = set()
+    for cfg in job['configs']:
+        alg = make_algebra(cfg)
+        fr = O.Frame(alg)
+        out['configs'] += 1
+        N = 2 ** alg.d
+        allk = tuple(range(N))
+        xv = frac_vals(rng, allk)
+        grades = [g for g in range(alg.d + 1)]
+        # pools of patterns with equal length: single grades g and d-g, plus literal sub-patterns of that length
+        pool = []
+        for g in grades:
+            pool.append(('grade', (g,)))
+        for _ in range(cfg.get('literal', 4)):
+            n = rng.choice([len(alg.indices_for_grades[(g,)]) for g in grades])
+            pool.append(('keys', tuple(rng.sample(range(N), n))))
+        percat = {}
+
+        def build(p):
+            if p[0] == 'grade':
+                return mv_from(alg, allk, list(xv)).grade(*p[1])
+            return mv_from(alg, p[1], [xv[k] for k in p[1]])
+        for rnd in range(cfg.get('rounds', 6)):
+            order = list(pool)
+            if rnd % 2:
+                order.reverse()
+            if rnd >= 4:
+                rng.shuffle(order)
+            for p in order:
+                for name in job['ops']:
+                    out['evaluations'] += 1
+                    pats.add((json.dumps(cfg, sort_keys=True), p, name))
+                    try:
+                        a = build(p)
+                        exp = O.nz(rules[name](fr.mv_to_ref(a)))
+                        r = getattr(a, name)() if rnd % 2 else getattr(alg, name)(a)
+                        got = O.nz(fr.mv_to_ref(r))
+                        ok, err = O.eq(got, exp), None
+                        del a, r
+                    except Exception as e:
+                        ok, err, got, exp = False, type(e).__name__ + ': ' + str(e)[:120], None, None
+                    if not ok:
+                        percat[name] = percat.get(name, 0) + 1
+                        if percat[name] <= 3:
+                            out['failures'].append({'config': cfg, 'op': name, 'round': rnd, 'operand': [p[0], list(p[1])],
+                                                    'what': 'unary result on a freshly built operand differs from the blade-by-blade rule',
+                                                    'got': str(got)[:200], 'expected': str(exp)[:200], 'error': err,
+                                                    'history': f'rounds 0..{rnd} over the pool {[[q[0], list(q[1])] for q in pool]}'})
+                gc.collect() if rnd == 3 else None
+        if len(out['samples']) < 3:
+            out['samples'].append({'config': cfg, 'pool': [[q[0], list(q[1])] for q in pool], 'rounds': cfg.get('rounds', 6)})
+    out['distinct'] = len(pats)
     return out
